@@ -229,10 +229,25 @@ def main(argv=None):
             fn = os.path.join(replay_dir, hashlib.sha1(cid.encode()).hexdigest()[:10] + '_' + ''.join(ch if ch.isalnum() else '_' for ch in cid)[:80] + '.json')
             rec = dict(property=prop, obligation=cid, verdict='refuted', backend=bad.get('backend'), path=bad.get('path'),
                        where=bad.get('where'), reason=bad.get('reason'), model=bad.get('model'), contract=bad['contract'], config=bad['config'])
+            # native replays run the REAL code on the counterexample: a broken solver loop may not terminate, so they get a wall-clock watchdog
+            import signal
+
+            class _ReplayTimeout(BaseException):
+                pass
+
+            def _alarm(signum, frame):
+                raise _ReplayTimeout()
+            old_h = signal.signal(signal.SIGALRM, _alarm)
+            signal.setitimer(signal.ITIMER_REAL, 30)
             try:
                 rep = rp.replay_obligation(reg, mod, rec)
+            except _ReplayTimeout:
+                rep = dict(reproduced=None, detail='native replay did not finish within 30 s (the real code may not terminate on this input)')
             except Exception:
                 rep = dict(reproduced=None, detail='replay driver failed: ' + traceback.format_exc()[-800:])
+            finally:
+                signal.setitimer(signal.ITIMER_REAL, 0)
+                signal.signal(signal.SIGALRM, old_h)
             rec['replay'] = rep
             json.dump(rec, open(fn, 'w'), indent=1, default=str)
             suffix = '' if rep.get('reproduced') else ' no-failing-input-found'
